@@ -154,8 +154,27 @@ fn run_case(case: &Case) -> Outcome {
     let slack: i64 = if case.family == Family::Flow { 2 } else { 1_000_000 };
     let fam = format!("{:?}", case.family).to_lowercase();
     let (mut waits, mut rejs, mut passes, mut bursts, mut edge, mut batchy) = (0u32, 0u32, 0u32, 0u32, 0u32, 0u32);
+    let mut reloads = 0u32;
     let mut prev_arrival = case.t0_ns;
+    // flow cases: at one point of the history the rules are replaced by an equal throttling rule (new id)
+    // plus an extra, very lax reject rule - an effective reload that leaves the throttling rule unchanged.
+    // The pacing schedule must simply continue (the oracle below does not know about the reload).
+    let reload_at = if case.family == Family::Flow && case.t0_ns % 3 == 0 { Some(case.reqs.len() / 2) } else { None };
     for (i, (arr, batch, vi)) in case.reqs.iter().enumerate() {
+        if reload_at == Some(i) {
+            let same = Arc::new(flow::Rule {
+                resource: res.clone(),
+                threshold: case.rate,
+                control_strategy: flow::ControlStrategy::Throttling,
+                calculate_strategy: flow::CalculateStrategy::Direct,
+                max_queueing_time_ms: case.max_queue_ms as u32,
+                stat_interval_ms: case.interval_ms as u32,
+                ..Default::default()
+            });
+            let lax = Arc::new(flow::Rule { resource: res.clone(), threshold: 1e12, ..Default::default() });
+            let _ = flow::load_rules_of_resource(&res, vec![lax, same]);
+            reloads += 1;
+        }
         let stream = if case.family == Family::Flow { 0 } else { *vi };
         let n = *batch as f64;
         let interval_k = if case.rate > 0.0 { n * interval_ns_total / case.rate } else { f64::INFINITY };
@@ -216,7 +235,11 @@ fn run_case(case: &Case) -> Outcome {
             }
         } else {
             let tr = match case.family {
-                Family::Flow => flow::get_traffic_controller_list_for(&res)[0].perform_checking(node.clone(), *batch, 0),
+                Family::Flow => flow::get_traffic_controller_list_for(&res)
+                    .iter()
+                    .find(|c| c.rule().control_strategy == flow::ControlStrategy::Throttling)
+                    .expect("throttling controller")
+                    .perform_checking(node.clone(), *batch, 0),
                 Family::Hotspot => hotspot::get_traffic_controller_list_for(&res)[0].perform_checking(value.clone(), *batch),
             };
             match tr {
@@ -300,14 +323,15 @@ fn run_case(case: &Case) -> Outcome {
     }
     if waits > 0 && rejs > 0 && passes > 0 {
         out.sig = Some(format!(
-            "{fam}|{}|rate{}|int{}|max{}|burst{}|edge{}|batch{}",
+            "{fam}|{}|rate{}|int{}|max{}|burst{}|edge{}|batch{}|reload{}",
             if case.via_build { "build" } else { "check" },
             case.rate,
             eff_interval_ms,
             case.max_queue_ms,
             (bursts > 0) as u8,
             (edge > 0) as u8,
-            (batchy > 0) as u8
+            (batchy > 0) as u8,
+            reloads
         ));
     }
     out
